@@ -56,7 +56,8 @@ META = {
         "image name dup_names times (plus a name that collides with the uniquifier's own suffix, bmp/jpg side by side, the same image painted twice, and dup_names inline images on one page); "
         "lzw-early: noisy images whose LZW code width grows past 9 bits (40x40 and 64x8 gray, 24x24 RGB, 64x64 1-bit) x /EarlyChange {absent, 1, 0} x "
         "{LZW alone with a dictionary, A85+LZW with a [null dict] array}; parms: predictor {PNG 15, PNG 12, TIFF 2} x codec {Fl, LZW} x 4 geometries x "
-        "/DecodeParms spelling {dict, [dict], ref, [ref], ref->[dict], ref->[ref], and after an ASCII85 filter [null dict], [null ref], ref->[null ref]}; "
+        "/DecodeParms spelling {dict, [dict], ref, [ref], ref->[dict], ref->[ref], and after an ASCII85 filter [null dict], [null ref], ref->[null ref], and a single-NAME filter with [dict], [ref], ref->[dict]}; "
+        "mask: stencil masks (/ImageMask true, no ColorSpace) x /BitsPerComponent {absent, 1} x {unfiltered, Fl} x widths {1, 8, 9, 16} x heights {1, 2}: exported as a 1-bit BMP of the stored samples; "
         "inline-a85-ei: inline images whose /F is a single ASCII85 name or a one-element array and whose ASCII85 text contains EI followed by "
         "white space {LF, SP, CR LF, TAB} (5 digit groups x 4 payloads), BUFSIZ {4096, 2}; "
         "calls: every sequence of 2 and 3 extract_text_to_fp calls into one output directory over 5 documents that all name an image Im0 "
@@ -76,7 +77,7 @@ META = {
     ),
     "bound": {k: str(v) for k, v in BOUNDS.items()},
     "assumptions": [
-        "CMYK / ICC / Indexed colour, JBIG2, JPX (need Pillow, absent), Decode arrays, ImageMask, SMask and 2/4/16-bit samples are not generated",
+        "CMYK / ICC / Indexed colour, JBIG2, JPX (need Pillow, absent), Decode arrays, SMask and 2/4/16-bit samples are not generated; stencil masks are judged as their stored 1-bit samples (0 -> black, 1 -> white), not as painted",
         "JPEG data is opaque: only byte identity of the exported .jpg is judged, not decodability",
         "the BMP reader is my own strict reader validated on three hand-assembled files (24-bit bottom-up, 1-bit, 8-bit top-down)",
         "reference encoders (LZW, RunLength, ASCII85, ASCIIHex, PNG predictors) are validated by round trip through my own decoders and against the ISO LZW example",
@@ -213,8 +214,14 @@ JPEGS = [
 # ----------------------------------------------------------------------------------------------
 # documents
 # ----------------------------------------------------------------------------------------------
-def image_xobject(colour: str, w: int, h: int, filt: Any, parms: Any, enc: bytes) -> Stream:
+def image_xobject(colour: str, w: int, h: int, filt: Any, parms: Any, enc: bytes, mask: Optional[str] = None) -> Stream:
     d: Dict[str, Any] = {"Type": N("XObject"), "Subtype": N("Image"), "Width": w, "Height": h, "ColorSpace": N(CS_NAME[colour]), "BitsPerComponent": BPC[colour]}
+    if mask is not None:
+        # stencil mask (ISO 8.9.6.2): no ColorSpace; BitsPerComponent is optional and, if present, 1
+        del d["ColorSpace"]
+        d["ImageMask"] = True
+        if mask == "no-bpc":
+            del d["BitsPerComponent"]
     if filt is not None:
         d["Filter"] = filt
     if parms is not None:
@@ -374,7 +381,7 @@ def judge_xobject_doc(pdf: bytes, images: List[Dict[str, Any]]):
         lts = lt_images(pdf)
         ncmp += 1
         got = [(i.name, tuple(i.srcsize), i.bits, tuple(CS_EQUIV.get(c, c) for c in cs_names(i))) for i in lts]
-        want = [(im["name"], (im["w"], im["h"]), BPC[im["colour"]], (CS_NAME[im["colour"]],)) for im in images]
+        want = [(im["name"], (im["w"], im["h"]), BPC[im["colour"]], tuple(im.get("cs") or (CS_NAME[im["colour"]],))) for im in images]
         outcome.append(tuple(got))
         if got != want:
             viol.append(("C18/ltimage-attributes", want, got, "LTImage name/srcsize/bits/colorspace differ"))
@@ -459,7 +466,7 @@ def lzw_early_doc(colour: str, w: int, h: int):
     return pdf, images, grew
 
 
-PARM_SPELLINGS = ("dict", "[dict]", "ref", "[ref]", "ref->[dict]", "ref->[ref]", "A85:[null dict]", "A85:[null ref]", "A85:ref->[null ref]")
+PARM_SPELLINGS = ("dict", "[dict]", "ref", "[ref]", "ref->[dict]", "ref->[ref]", "A85:[null dict]", "A85:[null ref]", "A85:ref->[null ref]", "name:[dict]", "name:[ref]", "name:ref->[dict]")
 PREDICTORS = ("PNG15", "PNG12", "TIFF2")
 
 
@@ -481,7 +488,8 @@ def parms_doc(colour: str, w: int, h: int, predictor: str, codec: str):
         enc = codecs.flate_encode(pred) if codec == "Fl" else codecs.lzw_encode(pred)
         fname = N("FlateDecode" if codec == "Fl" else "LZWDecode")
         a85 = spelling.startswith("A85:")
-        sp = spelling[4:] if a85 else spelling
+        name_filter = spelling.startswith("name:")  # /Filter is a single name although /DecodeParms is a one-element array
+        sp = spelling[4:] if a85 else (spelling[5:] if name_filter else spelling)
         if a85:
             enc = codecs.a85_encode(enc)
             filt: Any = [N("ASCII85Decode"), fname]
@@ -508,7 +516,7 @@ def parms_doc(colour: str, w: int, h: int, predictor: str, codec: str):
                 parms = d.add(lead + [pd])
             else:
                 parms = d.add(lead + [d.add(pd)])
-        if sp == "ref" and filt is not fname:
+        if (sp == "ref" or name_filter) and filt is not fname:
             filt = fname
         name = "P%d" % si
         xobjs[name] = image_xobject(colour, w, h, filt, parms, enc)
@@ -782,6 +790,7 @@ def shards(tier):
             for h in b["heights"]:
                 out.append(("xobject", c, w, h))
     out.append(("dct",))
+    out.append(("mask",))
     for gi in range(len(LZW_GEOMS)):
         out.append(("lzw-early", gi))
     for pi in range(len(PREDICTORS)):
@@ -861,6 +870,28 @@ def run_shard(shard, tier, st):
                     st.case(None, nontrivial=True, outcome=outcome)
                     _record(st, viols, {"family": "xobject", "pdf": pdf, "images": images})
         st.sample({"family": fam, "chain": chain, "jpeg_bytes": len(jpg)})
+    elif fam == "mask":
+        for w in (1, 8, 9, 16):
+            for h in (1, 2):
+                images = []
+                xobjs = {}
+                k = 0
+                for bpc in ("no-bpc", "bpc-1"):
+                    for chain in ("none", "Fl"):
+                        samples = make_samples("G1", w, h, ("ramp", "rows", "alternating", "ones")[k % 4], salt=k)
+                        filt, parms, enc = encode_chain(chain, samples, "G1", w)
+                        name = "M%d" % k
+                        xobjs[name] = image_xobject("G1", w, h, filt, parms, enc, mask=bpc)
+                        images.append({"name": name, "colour": "G1", "w": w, "h": h, "samples": samples, "ext": ".bmp", "chain": chain, "cs": ("None",), "mask": bpc})
+                        k += 1
+                pdf = doc_with_pages([(PRE + do_ops([im["name"] for im in images]) + POST, xobjs)])
+                viols, outcome, ncmp = judge_xobject_doc(pdf, images)
+                st.states += 1
+                st.transitions += ncmp
+                st.traces += len(images)
+                st.case(None, nontrivial=True, outcome=outcome, n=len(images))
+                _record(st, viols, {"family": "xobject", "pdf": pdf, "images": images})
+        st.sample({"family": fam, "width": w, "height": h, "bits_per_component": ("absent", 1), "chains": ("none", "Fl")})
     elif fam == "lzw-early":
         colour, w, h = LZW_GEOMS[shard[1]]
         pdf, images, grew = lzw_early_doc(colour, w, h)
